@@ -28,6 +28,10 @@ from harness import core
 from harness.core import Prop, outcome, InternalError
 
 KINDS = ["laser", "srr", "laser_npz", "srr_npz"]
+# element names of the random histories: plain letters; isotopes; names that contain other names of the pool (ratio images,
+# 'P31 -> 47', 'Fe' / 'Fe56'), with '/', blanks and '>'; one-letter / case / blank / non-ASCII variants
+NAME_POOLS = [["A", "B", "C", "D", "E", "F"], ["Mg24", "P31", "Fe56", "Fe57", "Zn66", "Gd157"],
+              ["Ca44", "P31", "Ca44/P31", "P31 -> 47", "Fe", "Fe56"], ["b", "a", "ab", "B", "a b", "é"]]
 DTYPES = ["<f8", "<f4"]
 # the byte-swapped twins: generated for arrays handed to add() and for the start arrays of every kind but srr_npz
 SWAPPED = [">f8", ">f4"]
@@ -344,6 +348,11 @@ def decode_cfg(c, srr):
     return f"unknown:{sig!r}"
 
 
+def pixel(cfg):
+    """pixel width = height of the configuration with content token `cfg` (`make_config`; 0 = the default config)"""
+    return 35.0 if cfg == 0 else 10.0 * cfg
+
+
 def layer_shape(start, i):
     sh = start["shape"]
     return list(sh) if i % 2 == 0 else list(start.get("shape_odd", sh))
@@ -530,31 +539,47 @@ def read_plan(srr, nlayers, elements, cfg, light=False):
                 for ext in ((False, True) if (target is None or target == elements[0]) and not light else (False,)):
                     label = f"L{layer}|{target}|{'cal' if cal else 'raw'}|{'ext' if ext else 'full'}"
                     plan.append((label, [i], {"layer": layer, "target": target, "cal": cal, "ext": ext}, False, not ext))
+    if srr and not light:
+        # `flat=True` changes nothing for a single-layer read (the result is 2-d already): the stored values again
+        for layer in range(nlayers):
+            plan.append((f"L{layer}|None|raw|full|flat", [midx(layer, None, False)],
+                         {"layer": layer, "target": None, "cal": False, "ext": False, "flat": True}, False, True))
     if srr and cfg == 1 and not light:
         for target in [None] + list(elements):
             for cal in (False, True):
                 idx = [midx(layer, target, cal) for layer in range(nlayers)]
                 label = f"SRR|{target}|{'cal' if cal else 'raw'}|full"
                 plan.append((label, idx, {"layer": None, "target": target, "cal": cal, "ext": False}, True, False))
+        # the flattened reconstruction (mean over the layer axis): its values are C09's subject; here only that it
+        # returns a 2-d array and (like every read) leaves what is stored alone
+        for target in [None] + list(elements[:1]):
+            for cal in (False, True):
+                label = f"SRR|{target}|{'cal' if cal else 'raw'}|flat"
+                plan.append((label, [], {"layer": None, "target": target, "cal": cal, "ext": False, "flat": True,
+                                         "returned_only": True}, True, False))
     return plan, mreads
 
 
 def do_reads(world, plan):
     las, srr, start = world.laser, world.srr, world.start
-    pix = 10.0 if start["cfg"] == 1 else 35.0
+    pix = pixel(start["cfg"])
     reads, sizes = {}, {}
     for label, _, kw, drop_fill, sized in plan:
         args = {"calibrate": kw["cal"]}
         if srr:
             args["layer"] = kw["layer"]
+        elif kw["ext"] and not kw["cal"]:
+            args["calibrate"] = None   # `Laser.get(calibrate: bool | None = False)`: None is "off"
         if kw["ext"]:
             sh = layer_shape(start, kw["layer"])
             if srr and kw["layer"] % 2 == 1:
                 sh = sh[::-1]
             args["extent"] = (0.0, pix * max(1, sh[1] - 1), 0.0, pix * max(1, sh[0] - 1))
+        if kw.get("flat"):
+            args["flat"] = True
         try:
             res = las.get(kw["target"], **args)
-            reads[label] = decode_result(res, kw["target"], drop_fill)
+            reads[label] = {"returned-ndim": int(res.ndim)} if kw.get("returned_only") else decode_result(res, kw["target"], drop_fill)
             if sized:
                 sizes[label] = int(res.size)
         except Exception as e:  # generated reads never raise
@@ -621,7 +646,7 @@ def canon_side(o, plan, which, offs="auto"):
               "offs": offs, "data": {n: ds for n, ds, _ in o["map"]}}
     reads, sizes = {}, {}
     for label, idx, kw, _, sized in plan:
-        reads[label] = merge_reads([readout(o["reads"][i]) for i in idx])
+        reads[label] = {"returned-ndim": 2} if kw.get("returned_only") else merge_reads([readout(o["reads"][i]) for i in idx])
         if sized:
             sizes[label] = o["sizes"][kw["layer"]]
     return {"state": st, "reads": reads, "sizes": sizes, "state_after_reads": st}
@@ -929,20 +954,24 @@ def obj_req(kind, start, ops, mreads):
 def obj_do_reads(world, plan):
     """every get() variant of the plan: decoded values, sizes, and which stored columns the result shares memory with"""
     las, srr, start = world.laser, world.srr, world.start
-    pix = 10.0 if start["cfg"] == 1 else 35.0
+    pix = pixel(start["cfg"])
     reads, sizes, shares = {}, {}, {}
     for label, _, kw, drop_fill, sized in plan:
         args = {"calibrate": kw["cal"]}
         if srr:
             args["layer"] = kw["layer"]
+        elif kw["ext"] and not kw["cal"]:
+            args["calibrate"] = None   # `Laser.get(calibrate: bool | None = False)`: None is "off"
         if kw["ext"]:
             sh = layer_shape(start, kw["layer"])
             if srr and kw["layer"] % 2 == 1:
                 sh = sh[::-1]
             args["extent"] = (0.0, pix * max(1, sh[1] - 1), 0.0, pix * max(1, sh[0] - 1))
+        if kw.get("flat"):
+            args["flat"] = True
         try:
             res = las.get(kw["target"], **args)
-            reads[label] = decode_result(res, kw["target"], drop_fill)
+            reads[label] = {"returned-ndim": int(res.ndim)} if kw.get("returned_only") else decode_result(res, kw["target"], drop_fill)
             if sized:
                 sizes[label] = int(res.size)
             if kw["layer"] is not None:
@@ -1006,6 +1035,392 @@ def widen_start(rng, srr, start):
             start["ids"][li][j] = col[li]
 
 
+# ----------------------------------------------------------------------------- several lasers ("multi" mode)
+# A case: the caller's objects - structured arrays (layers), Python lists of them, Calibration objects, calibration
+# dicts, config objects - and a history of steps:
+#   {"op": "construct", "srr": bool, "list": k | "arr": a, "given": dict index | None, "cfg": config index | None}
+#   {"op": "load", "laser": i}                      npz.save(lasers[i]) + npz.load: a further laser, the saved one lives on
+#   {"op": "call", "laser": i, "call": {add / remove / rename / get as in the other modes}}
+#   {"op": "edit_cal" | "edit_dict" | "edit_cfg" | "set_offsets", "obj": j, ...}   the caller edits what it handed over
+#   {"op": "set_list", "list": k, "entries": [array indices]}                    the caller edits its list of layers
+# Several lasers may be built from the SAME list / array / dict / config object.  After every step EVERY laser is
+# judged against its own dictionary (Lean: `MWorld`, `mstep`, one `Spec` per laser), and the caller's lists against
+# what the caller put there.
+MULTI_EDITS = ("edit_cal", "edit_dict", "edit_cfg", "set_offsets", "set_list")
+
+
+class MultiAbs:
+    """abstract run of a multi-laser case: which lasers exist, their element names, dtypes and layer shapes.
+    Raises OutOfScope where the case leaves what the comparison is sound for, InternalError where it is malformed."""
+
+    def __init__(self, case):
+        self.arrays = case["arrays"]
+        for a in self.arrays:
+            if not (len(a["names"]) == len(a["dtypes"]) == len(a["ids"])) or len(set(a["names"])) != len(a["names"]):
+                raise InternalError("array: one dtype and one id per (distinct) field")
+        self.lists = [list(l) for l in case["lists"]]
+        self.cal_objs = list(case["cal_objs"])
+        self.n_con_cals = len(self.cal_objs)
+        self.dicts = [[list(e) for e in d] for d in case["dicts"]]
+        self.cfgs = [dict(c) for c in case["cfgs"]]
+        if any(c["scal"] < 1 for c in self.cfgs):
+            raise OutOfScope("content 0 stands for `no config given`")
+        self.lasers = []          # {"srr", "shapes", "names", "dts": {name: [dtype per layer]}, "args": (...)}
+        self.reg = {}             # data id -> (dtype, shape)
+        self.cal_pool = list(self.cal_objs)   # contents of every Calibration object the caller holds, by index
+        for a in self.arrays:
+            for d, i in zip(a["dtypes"], a["ids"]):
+                self.check_id(i, d)
+                self.reg[i] = (d, list(a["shape"]))
+
+    @staticmethod
+    def check_id(i, dt):
+        t = np.dtype(dt)
+        if i >= WIDE or t.kind != "f" or float(t.type(i)) != float(i) or int(t.type(i)) != i:
+            raise OutOfScope(f"id {i} is not a (small) value of dtype {dt}")
+
+    def idx(self, seq, i, what):
+        if not (isinstance(i, int) and 0 <= i < len(seq)):
+            raise InternalError(f"{what} index {i} out of range")
+        return seq[i]
+
+    def apply(self, step):
+        k = step["op"]
+        if k == "construct":
+            srr = bool(step["srr"])
+            if srr:
+                ents = [self.idx(self.arrays, a, "array") for a in self.idx(self.lists, step["list"], "list")]
+                if len(ents) < 2:
+                    raise OutOfScope("SRRLaser of fewer than two layers")
+            else:
+                ents = [self.idx(self.arrays, step["arr"], "array")]
+            names = list(ents[0]["names"])
+            if any(list(e["names"]) != names for e in ents):
+                raise OutOfScope("layers with different fields")
+            shapes = [list(e["shape"]) for e in ents]
+            if any(shapes[li] != shapes[li % 2] for li in range(len(shapes))):
+                raise OutOfScope("layer shapes do not alternate")
+            if srr and (shapes[0][1] < shapes[1][0] or shapes[1][1] < shapes[0][0]):
+                raise OutOfScope("layers too short to be crossed (the reconstruction read raises)")
+            if step["given"] is not None:
+                g = self.idx(self.dicts, step["given"], "dict")
+                if len({n for n, _ in g}) != len(g):
+                    raise InternalError("a Python dict cannot hold a key twice")
+                if any(n not in names for n, _ in g):
+                    raise OutOfScope("calibration key that names no element")
+            if step["cfg"] is not None and bool(self.idx(self.cfgs, step["cfg"], "config")["srr"]) != srr:
+                raise OutOfScope("config of the other kind")
+            self.lasers.append({"srr": srr, "shapes": shapes, "names": names,
+                                "dts": {n: [e["dtypes"][j] for e in ents] for j, n in enumerate(names)},
+                                "args": ("list", step["list"]) if srr else ("arr", step["arr"]),
+                                "given": step["given"], "cfg": step["cfg"]})
+        elif k == "load":
+            las = self.idx(self.lasers, step["laser"], "laser")
+            if not las["names"]:
+                raise OutOfScope("npz of a laser without elements")
+            if step.get("reuse_file"):
+                # the file written by the last save of this laser is loaded once more: it holds what the laser
+                # holds now only if the laser was not edited since
+                if las.get("saved") != las.get("version", 0):
+                    raise OutOfScope("the file does not hold what the laser holds now")
+            las["saved"] = las.get("version", 0)
+            if las["srr"]:
+                # a file holds ONE stacked native-order array per SRR laser
+                if any(sh != las["shapes"][0] for sh in las["shapes"]):
+                    raise OutOfScope("npz of an SRR laser with layers of different shape")
+                for n in las["names"]:
+                    if mixed_layers(las["dts"][n]) or any(swapped(d) for d in las["dts"][n]):
+                        raise OutOfScope("npz of an SRR laser with layers of different / byte-swapped field dtypes")
+            self.lasers.append({"srr": las["srr"], "shapes": [list(x) for x in las["shapes"]], "names": list(las["names"]),
+                                "dts": {n: list(v) for n, v in las["dts"].items()}, "args": ("load", step["laser"]),
+                                "given": None, "cfg": None})
+        elif k == "call":
+            las = self.idx(self.lasers, step["laser"], "laser")
+            op = step["call"]
+            nl = len(las["shapes"])
+            if op["op"] == "add":
+                dts = add_dtypes(op, len(op["data"]))
+                if len(op["data"]) != nl or len(dts) != nl or op["name"] in las["names"]:
+                    raise OutOfScope("add that does not succeed")
+                for li, i in enumerate(op["data"]):
+                    self.check_id(i, dts[li])
+                    if i in self.reg:
+                        raise InternalError(f"data id {i} used twice")
+                    self.reg[i] = (dts[li], list(las["shapes"][li]))
+                c = op["cal"]
+                if c is not None and "obj" in c:
+                    self.idx(self.cal_pool, c["obj"], "calibration")
+                    if c["obj"] < self.n_con_cals:
+                        raise OutOfScope("a construction-time Calibration handed to add()")
+                elif c is not None:
+                    self.cal_pool.append(c["new"])
+                las["names"] = las["names"] + [op["name"]]
+                las["dts"][op["name"]] = dts
+                las["version"] = las.get("version", 0) + 1
+            elif op["op"] in ("remove", "rename", "get"):
+                if op["op"] == "get" and not (0 <= op["layer"] < nl):
+                    raise OutOfScope("read of an absent layer")
+                nxt = abstract_apply(las["names"], op)
+                if nxt is None:
+                    raise OutOfScope("call that does not succeed")
+                if op["op"] == "rename":
+                    m = dict(map(tuple, op["map"]))
+                    las["dts"] = {m.get(n, n): v for n, v in las["dts"].items() if n in las["names"]}
+                elif op["op"] == "remove":
+                    las["dts"] = {n: v for n, v in las["dts"].items() if n in nxt}
+                las["names"] = nxt
+                if op["op"] != "get":
+                    las["version"] = las.get("version", 0) + 1
+            else:
+                raise InternalError(f"bad call {op}")
+        elif k == "edit_cal":
+            if not (0 <= step["obj"] < self.n_con_cals):
+                raise OutOfScope("edit of a Calibration that was not created for a constructor")
+            self.cal_pool[step["obj"]] = step["content"]
+        elif k == "edit_dict":
+            self.idx(self.dicts, step["obj"], "dict")
+            if len({n for n, _ in step["entries"]}) != len(step["entries"]):
+                raise InternalError("a Python dict cannot hold a key twice")
+            for _, j in step["entries"]:
+                if not (0 <= j < self.n_con_cals):
+                    raise OutOfScope("dict entry that is not a construction-time Calibration")
+            self.dicts[step["obj"]] = [list(e) for e in step["entries"]]
+        elif k == "edit_cfg":
+            if step["content"] < 1:
+                raise OutOfScope("content 0 stands for `no config given`")
+            self.idx(self.cfgs, step["obj"], "config")["scal"] = step["content"]
+        elif k == "set_offsets":
+            if not self.idx(self.cfgs, step["obj"], "config")["srr"]:
+                raise OutOfScope("offsets of a plain Config")
+        elif k == "set_list":
+            self.idx(self.lists, step["list"], "list")
+            for a in step["entries"]:
+                self.idx(self.arrays, a, "array")
+            self.lists[step["list"]] = list(step["entries"])
+        else:
+            raise InternalError(f"bad step {step}")
+
+    def snapshot(self):
+        return [{"srr": l["srr"], "shapes": [list(x) for x in l["shapes"]], "names": list(l["names"])} for l in self.lasers]
+
+
+def multi_track(case):
+    """the abstract state (per laser: kind, layer shapes) before every step and after the last; the data registry"""
+    ab = MultiAbs(case)
+    snaps = [ab.snapshot()]
+    for st in case["steps"]:
+        ab.apply(st)
+        snaps.append(ab.snapshot())
+    return snaps, ab
+
+
+def multi_req(case, snaps, upto, reads):
+    """the driver's request for the first `upto` steps; `reads`: one list of model reads per laser (final state)"""
+    steps = []
+    for i, st in enumerate(case["steps"][:upto]):
+        if st["op"] == "call" and st["call"]["op"] == "add":
+            op = st["call"]
+            shapes = snaps[i][st["laser"]]["shapes"]
+            steps.append({"op": "call", "laser": st["laser"],
+                          "call": {"op": "add", "name": op["name"], "cal": op["cal"],
+                                   "data": [[shapes[li], d] for li, d in enumerate(op["data"])]}})
+        elif st["op"] == "call" and st["call"]["op"] == "remove":
+            steps.append({"op": "call", "laser": st["laser"], "call": {"op": "remove", "names": st["call"]["names"]}})
+        elif st["op"] == "construct":
+            d = {"op": "construct", "srr": st["srr"], "given": st["given"], "cfg": st["cfg"]}
+            d["list" if st["srr"] else "arr"] = st["list"] if st["srr"] else st["arr"]
+            steps.append(d)
+        else:
+            steps.append(st)
+    return dict(arrays=[{"shape": a["shape"], "fields": [[n, i] for n, i in zip(a["names"], a["ids"])]} for a in case["arrays"]],
+                lists=case["lists"], cal_objs=case["cal_objs"], dicts=case["dicts"], cfgs=case["cfgs"], steps=steps,
+                reads=reads)
+
+
+class LaserView:
+    """one laser of a MultiWorld, with what `World.state` and `do_reads` need"""
+    decode_data = World.decode_data
+    state = World.state
+
+    def __init__(self, laser, srr, reg, ncal, shapes, cfg):
+        self.laser, self.srr, self.reg, self.ncal = laser, srr, reg, ncal
+        self.start = {"shape": shapes[0], "shape_odd": shapes[1] if len(shapes) > 1 else shapes[0], "cfg": cfg}
+
+    def layers(self):
+        return list(self.laser.data) if self.srr else [self.laser.data]
+
+
+class MultiWorld:
+    """the real lasers and everything the caller created, in creation order"""
+
+    def __init__(self, case, reg, tmp):
+        self.reg, self.tmp = reg, tmp
+        self.structured = []
+        for a in case["arrays"]:
+            arr = np.empty(a["shape"], dtype=[(n, d) for n, d in zip(a["names"], a["dtypes"])])
+            for n, i in zip(a["names"], a["ids"]):
+                arr[n] = i
+            self.structured.append(arr)
+        self.arrs = list(self.structured)       # every array the caller made (then those handed to add)
+        self.lists = [[self.structured[j] for j in l] for l in case["lists"]]
+        self.cals = [make_cal_obj(c) for c in case["cal_objs"]]
+        self.ncal = max(list(case["cal_objs"]) + [0]) + 1
+        self.dicts = [{n: self.cals[j] for n, j in d} for d in case["dicts"]]
+        self.cfgs = []
+        for c in case["cfgs"]:
+            self.cfgs.append(make_config(c["srr"], c["scal"]))
+        self.lasers, self.srr = [], []
+        self.nsaved, self.files = 0, {}
+
+    def apply(self, st):
+        """-> name of the exception class the step raised, or None"""
+        from pewlib import Laser
+        from pewlib.srr import SRRLaser
+        from pewlib.io import npz
+
+        k = st["op"]
+        try:
+            if k == "construct":
+                given = None if st["given"] is None else self.dicts[st["given"]]
+                config = None if st["cfg"] is None else self.cfgs[st["cfg"]]
+                if st["srr"]:
+                    las = SRRLaser(self.lists[st["list"]], calibration=given, config=config)
+                else:
+                    las = Laser(self.structured[st["arr"]], calibration=given, config=config)
+                self.lasers.append(las)
+                self.srr.append(bool(st["srr"]))
+            elif k == "load":
+                if st.get("reuse_file"):
+                    path = self.files[st["laser"]]
+                else:
+                    path = self.tmp / f"laser{self.nsaved}.npz"
+                    self.nsaved += 1
+                    npz.save(path, self.lasers[st["laser"]])
+                    self.files[st["laser"]] = path
+                self.lasers.append(npz.load(path))
+                self.srr.append(self.srr[st["laser"]])
+            elif k == "call":
+                las, srr, op = self.lasers[st["laser"]], self.srr[st["laser"]], st["call"]
+                if op["op"] == "add":
+                    dts = add_dtypes(op, len(op["data"]))
+                    arrs = []
+                    for li, i in enumerate(op["data"]):
+                        a = np.full(self.reg[i][1], i, dtype=dts[li])
+                        arrs.append(a)
+                        self.arrs.append(a)
+                    c = op["cal"]
+                    if c is None:
+                        cal = None
+                    elif "obj" in c:
+                        cal = self.cals[c["obj"]]
+                    else:
+                        cal = make_cal_obj(c["new"])
+                        self.cals.append(cal)
+                        self.ncal = max(self.ncal, c["new"] + 1)
+                    las.add(op["name"], arrs if srr else arrs[0], cal)
+                elif op["op"] == "remove":
+                    las.remove(op["names"][0] if op.get("as_str") and len(op["names"]) == 1 else list(op["names"]))
+                elif op["op"] == "rename":
+                    las.rename({o: n for o, n in op["map"]})
+                else:
+                    las.get(op["target"], calibrate=op["calibrate"], **({"layer": op["layer"]} if srr else {}))
+            elif k == "edit_cal":
+                self.ncal = max(self.ncal, st["content"] + 1)
+                mutate_cal(self.cals[st["obj"]], st["content"])
+            elif k == "edit_dict":
+                g = self.dicts[st["obj"]]
+                g.clear()
+                g.update({n: self.cals[j] for n, j in st["entries"]})
+            elif k == "edit_cfg":
+                cfg = self.cfgs[st["obj"]]
+                new = make_config(hasattr(cfg, "_subpixel_offsets"), st["content"])
+                cfg.spotsize, cfg.speed, cfg.scantime = new.spotsize, new.speed, new.scantime
+            elif k == "set_offsets":
+                self.cfgs[st["obj"]].subpixel_offsets = [[0, 3], [1, 3], [2, 3]]
+            elif k == "set_list":
+                self.lists[st["list"]][:] = [self.structured[j] for j in st["entries"]]
+            else:
+                raise InternalError(f"bad step {st}")
+        except InternalError:
+            raise
+        except Exception as e:
+            return type(e).__name__
+        return None
+
+    def layers(self, i):
+        return list(self.lasers[i].data) if self.srr[i] else [self.lasers[i].data]
+
+    def caller_lists(self):
+        """what the caller's list objects hold: index of the caller's array, -1 for anything else"""
+        return [[next((j for j, a in enumerate(self.structured) if a is x), -1) for x in l] for l in self.lists]
+
+    def alias(self):
+        """every identity / common-memory relation between a laser and the caller's objects, and between two lasers"""
+        rel = set()
+        offs = lambda c: getattr(c, "_subpixel_offsets", None)
+        shares = lambda a, b: a is not None and b is not None and bool(np.shares_memory(a, b))
+        caller_cols = [(k, ci, col) for k, a in enumerate(self.arrs) for ci, col in enumerate(columns(a))]
+        cols = []
+        for i, las in enumerate(self.lasers):
+            cols.append([(li, str(n), l[n]) for li, l in enumerate(self.layers(i)) for n in (l.dtype.names or ())])
+            for n, v in las.calibration.items():
+                rel |= {f"L{i}.cal[{n}]~caller.cal{j}" for j, c in enumerate(self.cals) if same_cal(v, c)}
+            rel |= {f"L{i}.dict=caller.dict{j}" for j, d in enumerate(self.dicts) if las.calibration is d}
+            rel |= {f"L{i}.cfg=caller.cfg{j}" for j, c in enumerate(self.cfgs) if las.config is c}
+            rel |= {f"L{i}.offs~caller.cfg{j}" for j, c in enumerate(self.cfgs) if shares(offs(las.config), offs(c))}
+            rel |= {f"L{i}.data=caller.list{k}" for k, l in enumerate(self.lists) if las.data is l}
+            rel |= {f"L{i}.data{li}[{n}]~caller.arr{k}.{ci}" for li, n, col in cols[i] for k, ci, c in caller_cols
+                    if bool(np.shares_memory(col, c))}
+        for i in range(len(self.lasers)):
+            for j in range(i + 1, len(self.lasers)):
+                a, b = self.lasers[i], self.lasers[j]
+                if a.calibration is b.calibration:
+                    rel.add(f"L{i}.dict=L{j}.dict")
+                if a.config is b.config:
+                    rel.add(f"L{i}.cfg=L{j}.cfg")
+                if shares(offs(a.config), offs(b.config)):
+                    rel.add(f"L{i}.offs~L{j}.offs")
+                if self.srr[i] and self.srr[j] and a.data is b.data:   # one list object (two Lasers may hold one array)
+                    rel.add(f"L{i}.data=L{j}.data")
+                rel |= {f"L{i}.cal[{n}]~L{j}.cal[{m}]" for n, u in a.calibration.items() for m, v in b.calibration.items()
+                        if same_cal(u, v)}
+                rel |= {f"L{i}.data{li}[{n}]~L{j}.data{lj}[{m}]" for li, n, c in cols[i] for lj, m, d in cols[j]
+                        if bool(np.shares_memory(c, d))}
+        return sorted(rel)
+
+
+def multi_model_alias(rep):
+    """the same relations, predicted from the identities of the Lean model"""
+    rel = set()
+    L = rep["lasers"]
+    caller_cells = [(k, ci, c) for k, cells in enumerate(rep["caller_arrs"]) for ci, c in enumerate(cells)]
+    for i, las in enumerate(L):
+        for n, cid in las["cal_ids"]:
+            rel |= {f"L{i}.cal[{n}]~caller.cal{j}" for j, c in enumerate(rep["caller_cals"]) if c == cid}
+        rel |= {f"L{i}.dict=caller.dict{j}" for j, d in enumerate(rep["caller_dicts"]) if d == las["dict_id"]}
+        rel |= {f"L{i}.cfg=caller.cfg{j}" for j, c in enumerate(rep["caller_cfgs"]) if c == las["cfg_id"]}
+        rel |= {f"L{i}.offs~caller.cfg{j}" for j, o in enumerate(rep["caller_cfg_offs"])
+                if o is not None and o == las["cfg_offs"]}
+        rel |= {f"L{i}.data=caller.list{k}" for k, l in enumerate(rep["caller_lists"]) if l == las["list_id"]}
+        rel |= {f"L{i}.data{li}[{n}]~caller.arr{k}.{ci}" for li, l in enumerate(las["layer_cells"]) for n, cell in l
+                for k, ci, c in caller_cells if c == cell}
+    for i in range(len(L)):
+        for j in range(i + 1, len(L)):
+            a, b = L[i], L[j]
+            if a["dict_id"] == b["dict_id"]:
+                rel.add(f"L{i}.dict=L{j}.dict")
+            if a["cfg_id"] == b["cfg_id"]:
+                rel.add(f"L{i}.cfg=L{j}.cfg")
+            if a["cfg_offs"] is not None and a["cfg_offs"] == b["cfg_offs"]:
+                rel.add(f"L{i}.offs~L{j}.offs")
+            if a["list_id"] is not None and a["list_id"] == b["list_id"]:
+                rel.add(f"L{i}.data=L{j}.data")
+            rel |= {f"L{i}.cal[{n}]~L{j}.cal[{m}]" for n, u in a["cal_ids"] for m, v in b["cal_ids"] if u == v}
+            rel |= {f"L{i}.data{li}[{n}]~L{j}.data{lj}[{m}]" for li, l in enumerate(a["layer_cells"]) for n, c in l
+                    for lj, r in enumerate(b["layer_cells"]) for m, d in r if c == d}
+    return sorted(rel)
+
+
 # decoration of the exhaustive trees (see `successors`, `default_start`); a tree case without "deco" (older replays) has none
 TREE_DECO = {"mixed": True, "wide": True}
 
@@ -1015,8 +1430,10 @@ class C07(Prop):
     id = "C07"
     anchored = ["src/pewlib/laser.py", "src/pewlib/srr/srr.py", "src/pewlib/io/npz.py"]
     cases = {"quick": 120, "thorough": 2400}
-    rule = ("targeted: every successful add/remove/rename sequence up to length 3 over {A,B,C,D} from Laser, SRRLaser and both "
-            "after npz save/load (16368 sequences each; thorough: over 5 names, 76695 each, plus all 578786 length-4 sequences "
+    rule = ("targeted: every successful add/remove/rename sequence up to length 3 over {A,B,C,D} from Laser and SRRLaser "
+            "(16368 sequences each) and, after npz save/load, every sequence up to length 2 plus the one-op extensions of "
+            "every second length-2 sequence (the half chosen by the seed; thorough: all of them, over 5 names, 76695 each from all "
+            "four starts, plus all 578786 length-4 sequences "
             "over 4 names from Laser and SRRLaser and a quarter of them, by prefix, after npz save/load), grouped into trees "
             "by prefix; all get() variants are read at every node, a reduced set at the deepest leaves; the arrays of the "
             "enumerated adds cycle through all-float64, all-float32, float32 first / float64 later, float64 first / float32 "
@@ -1025,8 +1442,15 @@ class C07(Prop):
             "loaded, with and without reconstruction reads) whose layers differ in precision, in byte order or both, at "
             "construction and in add(), followed by swap / chain renames, removes and further adds; object-level probes on "
             "every kind of laser (constructor copies, add by reference, views and copies, write-through, shared offsets array, "
-            "one Calibration under two keys, stray calibration keys, every failing call); generated: random histories up to "
-            "length 25 - 40 % successful sequences against the content-level model, 60 % object-level histories (adds with "
+            "one Calibration under two keys, stray calibration keys, every failing call); multi-laser probes on SRRLaser (2 and 3 "
+            "layers) and Laser: two and three lasers built from the SAME list object / array / calibration dict / config "
+            "object, every state-changing call on each in turn, caller edits between and after the constructions (its list of "
+            "layers too), save/load mid-history with the saved laser living on, one file loaded twice; generated: random "
+            "histories up to length 25 - 28 % successful sequences against the content-level model, 42 % object-level "
+            "histories on one laser, 30 % histories over up to four lasers in one memory (constructions from arguments other "
+            "lasers were built from, loads, calls on any laser, caller edits of calibrations / dicts / configs / lists; after "
+            "every step EVERY laser is compared with its own dictionary, the caller's lists with what the caller put there, "
+            "identities between lasers and with the caller's objects one-sidedly); object-level histories: (adds with "
             "no / a new / an already known Calibration object, removes, renames incl. swaps, cycles, chains, reads, edits of the "
             "caller's Calibration / dict / config objects, in-place writes into the caller's arrays and through returned arrays, "
             "rebinding and in-place writes of the offsets array, failing calls of every kind, constructor dicts with a stray "
@@ -1057,7 +1481,13 @@ class C07(Prop):
                    "followed (the outcome depends on how the dict is rebuilt, the property starts from well-formed lasers)",
                    "order of the element tuple and of the calibration dict is not compared (the property speaks of sets)",
                    "SRR reads with layer=None (reconstruction) are compared as the set of non-fill values per element; "
-                   "sizes of extent-trimmed reads are C10's subject and are not compared",
+                   "sizes of extent-trimmed reads are C10's subject and are not compared; of the flattened reconstruction "
+                   "(flat=True, layer=None) only that it returns a 2-d array and changes nothing stored (values: C09)",
+                   "histories over several lasers: successful calls and edits of construction-time objects only; a case in which "
+                   "a step fails in the model, a construction-time Calibration is handed to add(), a calibration key names no "
+                   "element, an SRR laser whose layers differ in shape / dtype or are byte-swapped is saved, a laser without "
+                   "elements is saved, a reused file no longer holds what its laser holds, or layers cannot be crossed is not "
+                   "judged (undetermined); the generator builds none of them",
                    "the reconstruction read stacks the layers into one array of layer 0's dtype: where an element's layer 0 is "
                    "32-bit, its later layers are not given values beyond float32 precision when that read is made (cfg = 1); "
                    "a case that does so, an npz start whose layers differ in dtype (a file holds one stacked array) or whose SRR "
@@ -1065,9 +1495,13 @@ class C07(Prop):
                    "dtype are not judged (counted as undetermined); the generator builds none of them"]
 
     # ---- enumeration
-    def trees(self, alphabet, length, kinds=KINDS):
+    def trees(self, alphabet, length, kinds=KINDS, halve_npz=False):
         """all successful sequences of length <= `length`: one tree for the short ones, then one tree per
-        sequence of length `length - 1` (itself and its one-op extensions)"""
+        sequence of length `length - 1` (itself and its one-op extensions).
+        `halve_npz` (quick tier): after an npz round trip - where every sequence costs a file load - the one-op
+        extensions of every second sequence of length `length - 1` only, the half chosen by the seed (seeds 0 and 1
+        together, and the thorough tier alone, run all of them); everything shorter stays exhaustive."""
+        phase = int(os.environ.get("VERIF_SEED", "0")) % 2
         for kind in kinds:
             start = default_start(kind, deco=TREE_DECO)
             nl = len(start["ids"])
@@ -1077,8 +1511,13 @@ class C07(Prop):
                 continue
             yield {**base, "prefix": [], "depth": length - 2, "light_leaves": False}
             present, did, cid = start_state(start)
+            j = 0
             for seq in walk([], present, did, cid, length - 1, alphabet, nl, TREE_DECO):
                 if len(seq) == length - 1:
+                    j += 1
+                    if halve_npz and kind.endswith("_npz") and j % 2 != phase:
+                        yield {**base, "prefix": seq, "depth": 0}   # the sequence itself, without its extensions
+                        continue
                     yield {**base, "prefix": seq, "depth": 1}
 
     def targeted(self, tier):
@@ -1101,9 +1540,10 @@ class C07(Prop):
                 {"op": "add", "name": "D", "data": [d0 + 2 * nl + 2 * i for i in range(nl)], "dtype": "<f8", "cal": 0},
             ]}
         yield from self.targeted_obj()
+        yield from self.targeted_multi()
         yield from self.targeted_dtypes()
         if tier == "quick":
-            yield from self.trees(a4, 3)
+            yield from self.trees(a4, 3, halve_npz=True)
         else:
             yield from self.trees(a5, 3)
             yield from self.sampled_len4(a4)
@@ -1178,7 +1618,10 @@ class C07(Prop):
         yield from self.trees(["A", "B", "C", "D"], 3)
 
     def generate(self, rng, tier):
-        if rng.random() < 0.6:
+        u = rng.random()
+        if u < 0.3:
+            return self.gen_multi(rng, tier)
+        if u < 0.72:
             return self.gen_obj(rng, tier)
         return self.gen_seq(rng, tier)
 
@@ -1263,8 +1706,7 @@ class C07(Prop):
     def gen_seq(self, rng, tier):
         kind = rng.choice(KINDS)
         srr = kind.startswith("srr")
-        pool = rng.choice([["A", "B", "C", "D", "E", "F"], ["Mg24", "P31", "Fe56", "Fe57", "Zn66", "Gd157"],
-                           ["b", "a", "ab", "B", "a b", "é"]])
+        pool = rng.choice(NAME_POOLS)
         n0 = rng.choice([1, 2, 2, 3, 3, 4])
         names = rng.sample(pool, n0)
         nl = rng.choice([2, 2, 3]) if srr else 1
@@ -1432,7 +1874,9 @@ class C07(Prop):
         return model, spec
 
     def evaluate(self, case, ctx):
-        kind, start = case["kind"], case["start"]
+        kind, start = case.get("kind"), case.get("start")
+        if case["mode"] == "multi":
+            return self.eval_multi(case, ctx)
         if case["mode"] != "tree":
             try:
                 guard(kind, start, case["ops"])
@@ -1670,6 +2114,357 @@ class C07(Prop):
                        hyp=(scope == len(ops)), features=feats,
                        note=f"{len(ops)} steps, {max(scope, 0)} inside the property's scope")
 
+    # ---- several lasers
+    def eval_multi(self, case, ctx):
+        skip = lambda why: outcome({"not-judged": why}, {"not-judged": why}, {"not-judged": why}, undetermined=True,
+                                   features=[], note=why)
+        try:
+            snaps, ab = multi_track(case)
+        except OutOfScope as e:
+            return skip(str(e))
+        steps = case["steps"]
+        n = len(steps)
+        pre = ctx.driver.call("c07.multi", runs=[multi_req(case, snaps, i, []) for i in range(n + 1)])["runs"]
+        if any(e is not None for e in pre[n]["errs"]):
+            return skip("a step of the history fails in the model")
+        if not all(p["msep"] for p in pre):
+            return skip("a laser references an object the caller goes on editing")
+        for p in pre:
+            if not (all(p["frame"]) and p["mvalid"] and all(l["valid"] and l["inv"] and l["abs_eq"] for l in p["lasers"])):
+                raise InternalError(f"driver: the multi-laser theorems are contradicted: {case}")
+        # the reads of every laser at every step
+        plans, reqs = [], []
+        for i in range(n + 1):
+            pl, rd = [], []
+            for j, las in enumerate(pre[i]["lasers"]):
+                m = las["model"]
+                srr, nl = las["srr"], len(m["layers"])
+                recon = srr and m["cfg"] == 1
+                plan, mreads = read_plan(srr, nl, m["elements"], 1 if recon else 0, False)
+                pl.append(plan)
+                rd.append(mreads)
+            plans.append(pl)
+            reqs.append(multi_req(case, snaps, i, rd))
+        reps = ctx.driver.call("c07.multi", runs=reqs)["runs"]
+        model, spec = [], []
+        born_offs = {}   # the dictionary has no offsets array: a laser keeps the content its config had when it was built
+        for i, rep in enumerate(reps):
+            ml, sl = [], []
+            for j, las in enumerate(rep["lasers"]):
+                born_offs.setdefault(j, las["cfg_offs_content"])
+                if not all(r.get("pure", True) for r in las["reads"]) or las["spec"] is None:
+                    raise InternalError(f"driver: read purity / dictionary fails (contradicts the theorems): {case}")
+                srr = las["srr"]
+                m = dict(las["model"])
+                m["reads"] = [r.get("items") for r in las["reads"]]
+                side = canon_side(m, plans[i][j], "model", offs=las["cfg_offs_content"] if srr else None)
+                for label, idx, kw, _, sized in plans[i][j]:
+                    bad = [las["reads"][k]["raises"] for k in idx if "raises" in las["reads"][k]]
+                    if bad:
+                        side["reads"][label] = {"raises": bad[0]}
+                        side["sizes"].pop(label, None)
+                ml.append(side)
+                sl.append(canon_side(las["spec"], plans[i][j], "spec", offs=born_offs[j] if srr else None))
+            al = multi_model_alias(rep)
+            model.append({"lasers": ml, "caller_lists": rep["caller_list_entries"], "err": None, "alias": al})
+            spec.append({"lasers": sl, "caller_lists": rep["caller_list_entries"], "err": None, "alias": al})
+        # the real objects
+        tmp = ctx.tmpdir() if any(st["op"] == "load" for st in steps) else None
+        world = MultiWorld(case, ab.reg, tmp)
+        impl = []
+        for i in range(n + 1):
+            err = world.apply(steps[i - 1]) if i > 0 else None
+            views = [LaserView(world.lasers[j], world.srr[j], world.reg, world.ncal, snaps[i][j]["shapes"],
+                               pre[i]["lasers"][j]["model"]["cfg"] if j < len(pre[i]["lasers"]) else 0)
+                     for j in range(len(world.lasers))]
+            obs = []
+            for j, v in enumerate(views):
+                if j >= len(plans[i]):
+                    obs.append({"unexpected-laser": j})
+                    continue
+                try:
+                    st = v.state()
+                    reads, sizes = do_reads(v, plans[i][j])
+                    # a read of one laser changes nothing that any laser stores
+                    obs.append({"state": st, "reads": reads, "sizes": sizes, "state_after_reads": None})
+                except InternalError:
+                    raise
+                except Exception as e:
+                    obs.append({"raises": type(e).__name__, "msg": str(e)[:160]})
+            for j, v in enumerate(views):
+                if "state" in obs[j]:
+                    try:
+                        obs[j]["state_after_reads"] = v.state()
+                    except Exception as e:
+                        obs[j]["state_after_reads"] = {"raises": type(e).__name__}
+            impl.append({"lasers": obs, "caller_lists": world.caller_lists(), "err": err, "alias": world.alias()})
+        plain = lambda d: {k: v for k, v in d.items() if k != "alias"}
+        spec_ok = model_ok = True
+        for im, mo, sp in zip(impl, model, spec):
+            if core.canon(plain(im)) != core.canon(plain(sp)):
+                spec_ok = False
+            if core.canon(plain(im)) != core.canon(plain(mo)) or not all(x in mo["alias"] for x in im["alias"]):
+                model_ok = False
+        feats = self.multi_features(case, snaps, model)
+        return outcome({"steps": impl}, {"steps": model}, {"steps": spec}, spec_ok=spec_ok, model_ok=model_ok,
+                       features=feats, note=f"{n} steps over {len(snaps[-1])} lasers")
+
+    @staticmethod
+    def multi_features(case, snaps, model):
+        steps = case["steps"]
+        f = {"multi", f"multi:lasers:{min(len(snaps[-1]), 4)}{'+' if len(snaps[-1]) > 4 else ''}",
+             f"len:{'0' if not steps else '1-3' if len(steps) <= 3 else '4-10' if len(steps) <= 10 else '11-25'}"}
+        built = []   # per laser: (what its data argument was, dict, config)
+        for i, st in enumerate(steps):
+            k = st["op"]
+            if k == "construct":
+                arg = ("list", st["list"]) if st["srr"] else ("arr", st["arr"])
+                f.add("multi:kind:srr" if st["srr"] else "multi:kind:laser")
+                if any(b[0] == arg for b in built):
+                    f.add("multi:constructed-from-the-same-list-object" if st["srr"] else "multi:constructed-from-the-same-array")
+                if st["given"] is not None and any(b[1] == st["given"] for b in built):
+                    f.add("multi:constructed-from-the-same-calibration-dict")
+                if st["cfg"] is not None and any(b[2] == st["cfg"] for b in built):
+                    f.add("multi:constructed-from-the-same-config")
+                if any(s["op"] in MULTI_EDITS for s in steps[:i]) and built:
+                    f.add("multi:caller-edit-between-two-constructions")
+                built.append((arg, st["given"], st["cfg"]))
+            elif k == "load":
+                f.add("multi:load-mid-history" if any(s["op"] == "call" and s["call"]["op"] != "get" for s in steps[:i])
+                      else "multi:load-of-a-fresh-laser")
+                if st.get("reuse_file"):
+                    f.add("multi:one-file-loaded-twice")
+                built.append((("load", st["laser"]), None, None))
+            elif k == "call":
+                op = st["call"]
+                f |= {"multi:" + x for x in op_features(op, snaps[i][st["laser"]]["names"])}
+                if op["op"] != "get":
+                    me = built[st["laser"]]
+                    twins = [j for j, b in enumerate(built) if j != st["laser"] and b[0] == me[0] and me[0][0] != "load"]
+                    if twins:
+                        f.add("multi:edit-of-a-laser-whose-data-argument-another-laser-was-built-from")
+                    if any(b[0] == ("load", st["laser"]) for b in built) or me[0][0] == "load":
+                        f.add("multi:edit-of-a-saved-or-loaded-laser-while-the-other-lives-on")
+                    if len(built) > 1:
+                        f.add("multi:edit-while-other-lasers-exist")
+            else:
+                f.add(f"multi:{k}")
+                if k == "set_list" and any(b[0] == ("list", st["list"]) for b in built):
+                    f.add("multi:caller-edits-the-list-a-laser-was-built-from")
+        if any("~L" in x and ".data" in x for m in model for x in m["alias"]):
+            f.add("alias:two-lasers-hold-the-same-array-memory")
+        if any(".offs~L" in x for m in model for x in m["alias"]):
+            f.add("alias:two-config-copies-share-one-offsets-array")
+        return f
+
+    def gen_multi(self, rng, tier):
+        srr = rng.random() < 0.65
+        pool = rng.choice(NAME_POOLS)
+        n0 = rng.choice([1, 2, 2, 3, 3])
+        names = rng.sample(pool, n0)
+        nl = rng.choice([2, 2, 3, 4]) if srr else 1
+        # a case that saves an SRR laser keeps to what one stacked array in a file can hold
+        plain = srr and rng.random() < 0.5
+        if srr:
+            r, r1 = rng.randint(1, 3), rng.randint(1, 3)
+            sh_even = [r, (r if plain else r1) + rng.randint(0, 2)]
+            sh_odd = list(sh_even) if plain else [r1, r + rng.randint(0, 2)]
+        else:
+            sh_even = sh_odd = [rng.randint(1, 4), rng.randint(1, 4)]
+        did = 1
+        arrays, lists = [], []
+        nsets = rng.choice([1, 2, 2]) if srr else rng.choice([1, 2])
+        col_dts = [pick_dtype(rng, plain) for _ in range(n0)]
+        for _ in range(nsets):
+            first = len(arrays)
+            for li in range(nl):
+                dts = list(col_dts) if (plain or not srr or rng.random() < 0.6) else [pick_dtype(rng) for _ in range(n0)]
+                arrays.append({"shape": sh_even if li % 2 == 0 else sh_odd, "names": list(names), "dtypes": dts,
+                               "ids": [did + 2 * j for j in range(n0)]})
+                did += 2 * n0
+            if srr:
+                lists.append(list(range(first, first + nl)))
+        if srr and rng.random() < 0.5:
+            lists.append(list(lists[0]))   # another list object holding the same arrays
+        ncal = rng.randint(0, n0 + 1)
+        cal_objs = list(range(1, ncal + 1))
+        cid = ncal + 1
+        dicts = []
+        if ncal:
+            for _ in range(rng.choice([1, 1, 2])):
+                keys = rng.sample(names, rng.randint(0, min(n0, ncal)))
+                dicts.append([[k, rng.randrange(ncal) if rng.random() < 0.25 else j % ncal] for j, k in enumerate(keys)])
+        elif rng.random() < 0.5:
+            dicts.append([])
+        cfgs = [{"scal": rng.choice([1, 1, 2, 3]), "srr": srr} for _ in range(rng.choice([0, 1, 1, 2]))]
+        case = {"mode": "multi", "arrays": arrays, "lists": lists, "cal_objs": cal_objs, "dicts": dicts, "cfgs": cfgs, "steps": []}
+        ab = MultiAbs(case)
+        pick_opt = lambda seq, p: rng.randrange(len(seq)) if seq and rng.random() < p else None
+
+        def construct(like=None):
+            if like is not None and rng.random() < 0.7:   # the very same arguments as an existing laser
+                a = ab.lasers[like]
+                if a["args"][0] != "load":
+                    return {"op": "construct", "srr": srr, ("list" if srr else "arr"): a["args"][1], "given": a["given"],
+                            "cfg": a["cfg"]}
+            st = {"op": "construct", "srr": srr, "given": pick_opt(dicts, 0.75), "cfg": pick_opt(cfgs, 0.7)}
+            st["list" if srr else "arr"] = rng.randrange(len(lists) if srr else len(arrays))
+            return st
+
+        def propose():
+            nlas = len(ab.lasers)
+            choices = ["call"] * 10 + ["edit_cal"] * (2 if ncal else 0) + ["edit_dict"] * (1 if dicts else 0) + \
+                      ["edit_cfg"] * (1 if cfgs else 0) + ["set_offsets"] * (1 if cfgs and srr else 0) + \
+                      ["set_list"] * (1 if srr else 0)
+            if nlas < 4:
+                choices += ["construct"] * (5 if nlas < 2 else 2) + ["load"] * 2
+            k = rng.choice(choices)
+            if k == "construct":
+                return construct(rng.randrange(nlas))
+            if k == "load":
+                again = [j for j, l in enumerate(ab.lasers) if "saved" in l and l["saved"] == l.get("version", 0)]
+                if again and rng.random() < 0.4:   # the same file once more
+                    return {"op": "load", "laser": rng.choice(again), "reuse_file": True}
+                return {"op": "load", "laser": rng.randrange(nlas)}
+            if k == "edit_cal":
+                nonlocal_cid[0] += 2
+                return {"op": "edit_cal", "obj": rng.randrange(ncal), "content": nonlocal_cid[0]}
+            if k == "edit_dict":
+                ks = rng.sample(names, rng.randint(0, min(len(names), 3)))
+                return {"op": "edit_dict", "obj": rng.randrange(len(dicts)),
+                        "entries": [[x, rng.randrange(ncal)] for x in ks] if ncal else []}
+            if k == "edit_cfg":
+                return {"op": "edit_cfg", "obj": rng.randrange(len(cfgs)), "content": rng.choice([1, 2, 3, 4])}
+            if k == "set_offsets":
+                return {"op": "set_offsets", "obj": rng.randrange(len(cfgs)), "content": 2}
+            if k == "set_list":
+                kk = rng.randrange(len(lists))
+                cur = list(ab.lists[kk])
+                u = rng.random()
+                if u < 0.35 and len(lists) > 1:
+                    new = list(ab.lists[rng.randrange(len(lists))])
+                elif u < 0.55 and len(cur) > 2:
+                    new = cur[:2]
+                elif u < 0.7:
+                    new = cur[:1]
+                elif u < 0.8:
+                    new = []
+                else:
+                    base = rng.randrange(nsets) * nl
+                    new = list(range(base, base + nl))
+                return {"op": "set_list", "list": kk, "entries": new}
+            i = rng.randrange(nlas)
+            las = ab.lasers[i]
+            present, lnl = las["names"], len(las["shapes"])
+            absent = [x for x in pool if x not in present]
+            kinds = ["get"] + (["add"] * 4 if absent else []) + (["remove"] * 2 + ["rename"] * 4 if present else [])
+            c = rng.choice(kinds)
+            if c == "add":
+                u = rng.random()
+                added = list(range(ab.n_con_cals, len(ab.cal_pool)))
+                if u < 0.35:
+                    cal = None
+                elif u < 0.75 or not added:
+                    nonlocal_cid[0] += 2
+                    cal = {"new": nonlocal_cid[0]}
+                else:
+                    cal = {"obj": rng.choice(added)}   # one Calibration object handed to add() more than once
+                dts = [pick_dtype(rng, plain)] * lnl if plain else gen_add_dtypes(rng, srr, lnl)
+                op = add_op_dtypes({"op": "add", "name": rng.choice(absent),
+                                    "data": [nonlocal_did[0] + 2 * x for x in range(lnl)], "cal": cal}, dts)
+                nonlocal_did[0] += 2 * lnl
+            elif c == "remove":
+                mm = 1 if rng.random() < 0.5 else rng.randint(1, len(present))
+                if mm == len(present) and rng.random() < 0.7 and len(present) > 1:
+                    mm -= 1
+                op = {"op": "remove", "names": rng.sample(present, mm), "as_str": mm == 1 and rng.random() < 0.5}
+            elif c == "rename":
+                op = {"op": "rename", "map": self.gen_rename(rng, present, pool)}
+            else:
+                op = {"op": "get", "layer": rng.randrange(lnl), "target": rng.choice([None] + present) if present else None,
+                      "calibrate": rng.random() < 0.5}
+            return {"op": "call", "laser": i, "call": op}
+
+        nonlocal_cid, nonlocal_did = [cid + (cid % 2)], [did]
+        import copy as _copy
+        steps = []
+        first = construct()
+        length = rng.choice([3, 5, 8, 12, 18])
+        tries = 0
+        while len(steps) < length and tries < 200:
+            tries += 1
+            st = first if not steps else propose()
+            trial = _copy.deepcopy(ab)
+            try:
+                trial.apply(st)
+            except OutOfScope:
+                if not steps:   # the first construction cannot be judged: take the plainest arguments
+                    first = {"op": "construct", "srr": srr, ("list" if srr else "arr"): 0, "given": None, "cfg": None}
+                continue
+            ab = trial
+            steps.append(st)
+        case["steps"] = steps
+        return case
+
+    def targeted_multi(self):
+        """several lasers built from the same arguments, every kind, every state-changing call on each of them in turn"""
+        for srr in (True, False):
+            for nl in ((2, 3) if srr else (1,)):
+                names = ["A", "B", "C"]
+                arrays, did = [], 1
+                for s_ in range(2):
+                    for li in range(nl):
+                        arrays.append({"shape": [2, 3], "names": names, "dtypes": ["<f8", "<f4", "<f8"],
+                                       "ids": [did, did + 2, did + 4]})
+                        did += 6
+                lists = [list(range(nl)), list(range(nl, 2 * nl)), list(range(nl))] if srr else []
+                base = {"mode": "multi", "arrays": arrays, "lists": lists, "cal_objs": [1, 2, 3],
+                        "dicts": [[["A", 0], ["C", 1]], [["B", 2]]], "cfgs": [{"scal": 1, "srr": srr}, {"scal": 2, "srr": srr}]}
+                con = lambda d, g, c: {"op": "construct", "srr": srr, ("list" if srr else "arr"): d, "given": g, "cfg": c}
+                call = lambda i, op: {"op": "call", "laser": i, "call": op}
+                data = lambda k: [did + 2 * (k * nl + x) for x in range(nl)]
+                add = lambda i, n, k, cal: call(i, {"op": "add", "name": n, "data": data(k), "dtype": "<f8", "cal": cal})
+                swap = {"op": "rename", "map": [["A", "B"], ["B", "A"]]}
+                chain = {"op": "rename", "map": [["A", "B"], ["B", "C"], ["C", "Q"]]}
+                # two lasers from the very same list / array, dict and config: every call on the first, then on the second
+                yield {**base, "steps": [con(0, 0, 0), con(0, 0, 0), add(0, "D", 0, {"new": 5}), call(0, swap),
+                                         call(0, {"op": "remove", "names": ["A"], "as_str": True}),
+                                         call(0, {"op": "rename", "map": [["B", "C"], ["C", "D"], ["D", "Q"]]}),
+                                         add(1, "E", 1, None), call(1, chain), call(1, {"op": "remove", "names": ["B", "E"]}),
+                                         add(0, "A", 2, {"obj": 3}), add(1, "A", 3, {"obj": 3})]}
+                # one call each, right after the second construction (the shortest histories that tell the objects apart)
+                for op in (swap, {"op": "remove", "names": ["B"]}, chain):
+                    yield {**base, "steps": [con(0, 0, 0), con(0, None, None), call(1, op)]}
+                    yield {**base, "steps": [con(0, 0, 0), con(0, 1, 1), call(0, op), call(1, op)]}
+                yield {**base, "steps": [con(0, None, 0), con(0, 0, None), add(0, "D", 0, None)]}
+                yield {**base, "steps": [con(0, None, 0), con(0, 0, None), add(1, "D", 0, {"new": 7})]}
+                # three lasers: two from one list, one from another list object holding the same arrays / from other arrays
+                third = 2 if srr else 1
+                yield {**base, "steps": [con(0, 0, 0), con(third, 0, 0), con(0, 1, 1), call(2, swap), add(1, "D", 0, None),
+                                         call(0, {"op": "remove", "names": ["C", "A"]}), call(1, chain), add(2, "D", 1, {"new": 5})]}
+                # the caller edits what it handed to the first laser before building the second from it, and afterwards
+                yield {**base, "steps": [con(0, 0, 0), {"op": "edit_cal", "obj": 0, "content": 5},
+                                         {"op": "edit_dict", "obj": 0, "entries": [["B", 1]]},
+                                         {"op": "edit_cfg", "obj": 0, "content": 3}, con(0, 0, 0),
+                                         {"op": "edit_cal", "obj": 1, "content": 7}, {"op": "edit_cfg", "obj": 0, "content": 4},
+                                         call(1, swap), call(0, chain)] +
+                                        ([{"op": "set_offsets", "obj": 0, "content": 2}] if srr else [])}
+                if srr:
+                    # the caller's list: replaced, shortened, emptied after the laser was built from it; built again from it
+                    yield {**base, "steps": [con(0, 0, 0), {"op": "set_list", "list": 0, "entries": list(range(nl, 2 * nl))},
+                                             call(0, swap), con(0, 0, 0), {"op": "set_list", "list": 0, "entries": [0]},
+                                             add(0, "D", 0, None), call(1, chain), {"op": "set_list", "list": 0, "entries": []},
+                                             call(1, {"op": "remove", "names": ["Q"]})]}
+                # one file loaded twice, the first of the loaded lasers edited in between
+                yield {**base, "steps": [con(0, 0, 0), call(0, swap), {"op": "load", "laser": 0}, call(1, chain),
+                                         add(1, "D", 0, {"new": 5}), {"op": "load", "laser": 0, "reuse_file": True},
+                                         call(2, {"op": "remove", "names": ["A"]}), call(1, {"op": "remove", "names": ["D"]})]}
+                # saved and loaded mid-history; the saved laser, the loaded one and a twin are edited in turn; loaded again
+                yield {**base, "steps": [con(0, 0, 0), con(0, 0, 0), call(0, swap), {"op": "load", "laser": 0}, call(2, chain),
+                                         add(0, "D", 0, {"new": 5}), call(1, {"op": "remove", "names": ["C"]}),
+                                         {"op": "load", "laser": 2}, add(3, "A", 1, None), call(2, {"op": "remove", "names": ["Q"]}),
+                                         {"op": "load", "laser": 1}, call(4, swap)]}
+
     @staticmethod
     def obj_features(op, err, unchanged, in_scope, srr):
         k = op["op"]
@@ -1692,8 +2487,7 @@ class C07(Prop):
     def gen_obj(self, rng, tier):
         kind = rng.choice(KINDS)
         srr = kind.startswith("srr")
-        pool = rng.choice([["A", "B", "C", "D", "E", "F"], ["Mg24", "P31", "Fe56", "Fe57", "Zn66", "Gd157"],
-                           ["b", "a", "ab", "B", "a b", "é"]])
+        pool = rng.choice(NAME_POOLS)
         n0 = rng.choice([1, 2, 2, 3, 3, 4])
         names = rng.sample(pool, n0)
         nl = rng.choice([2, 2, 3]) if srr else 1
@@ -1903,6 +2697,15 @@ class C07(Prop):
         return None
 
     def shrink(self, case):
+        if case["mode"] == "multi":
+            # any sub-history is a case; one that refers to a laser that no longer exists does not evaluate and is skipped
+            steps = case["steps"]
+            for n in range(1, len(steps)):
+                yield {**case, "steps": steps[:n]}
+            for i in range(len(steps)):
+                if steps[i]["op"] not in ("construct", "load"):
+                    yield {**case, "steps": steps[:i] + steps[i + 1:]}
+            return
         if case["mode"] == "tree":
             seq = self.first_failing_seq(case)
             if seq is not None:
